@@ -236,9 +236,11 @@ macro_rules! run_from_new {
                 assert!(lockstep(&mut parser, &mut model, buf[i]), "callbacks agree");
                 i += 1;
             }
-            kani::cover!(model.st == St::CsiParam);
-            kani::cover!(model.st == St::OscString && model.osc_len > 0);
-            kani::cover!(model.st == St::Ground && $n > 1 && buf[0] == 0x1B);
+            kani::cover!(model.st == St::Escape);
+            kani::cover!(model.st == St::Utf8);
+            kani::cover!(model.st == St::CsiParam || $n < 3);
+            kani::cover!((model.st == St::OscString && model.osc_len > 0) || $n < 3);
+            kani::cover!((model.st == St::Ground && buf[0] == 0x1B) || $n < 2);
         }
     };
 }
@@ -257,6 +259,31 @@ run_from_new!(run_from_new_5, 5, 9);
 
 pub const OSCN: usize = 6;
 
+// `kani::any::<[T; 32]>()` is a 32-iteration loop; arrays are assembled from 8-element
+// pieces so that the harness-wide unwind bound can stay small.
+macro_rules! any_array {
+    ($name:ident, $t:ty, $n:expr, $zero:expr) => {
+        fn $name() -> [$t; $n] {
+            let mut out = [$zero; $n];
+            let mut b = 0;
+            while b * 8 < $n {
+                let piece: [$t; 8] = kani::any();
+                let mut j = 0;
+                while j < 8 && b * 8 + j < $n {
+                    out[b * 8 + j] = piece[j];
+                    j += 1;
+                }
+                b += 1;
+            }
+            out
+        }
+    };
+}
+any_array!(any32_u16, u16, 32, 0u16);
+any_array!(any32_bool, bool, 32, false);
+any_array!(any32_u8, u8, 32, 0u8);
+any_array!(any16_pairs, (usize, usize), 16, (0usize, 0usize));
+
 /// An arbitrary model state in parser state `st` with exactly `n` completed parameter
 /// values and `n_cuts` completed OSC fields (concrete shape), everything else symbolic
 /// under the model's invariant.
@@ -266,8 +293,8 @@ pub fn any_model(st: St, n: usize, n_cuts: usize) -> Vt<OSCN> {
     m.inter = kani::any();
     m.n_inter = kani::any();
     kani::assume(m.n_inter <= vt::MAX_INTERMEDIATES);
-    m.vals = kani::any();
-    m.sub = kani::any();
+    m.vals = any32_u16();
+    m.sub = any32_bool();
     m.sub[0] = false;
     m.n = n;
     m.cur = kani::any();
@@ -283,13 +310,11 @@ pub fn any_model(st: St, n: usize, n_cuts: usize) -> Vt<OSCN> {
     m.n_cuts = n_cuts;
     let mut prev = 0usize;
     let mut i = 0;
-    while i < vt::MAX_OSC_FIELDS {
-        if i < n_cuts {
-            let c: usize = kani::any();
-            kani::assume(prev <= c && c <= m.osc_len);
-            m.cuts[i] = c;
-            prev = c;
-        }
+    while i < n_cuts {
+        let c: usize = kani::any();
+        kani::assume(prev <= c && c <= m.osc_len);
+        m.cuts[i] = c;
+        prev = c;
         i += 1;
     }
     if n_cuts == vt::MAX_OSC_FIELDS {
@@ -303,7 +328,7 @@ pub fn any_model(st: St, n: usize, n_cuts: usize) -> Vt<OSCN> {
 /// are symbolic.
 pub fn concretize(m: &Vt<OSCN>, extra_osc: usize) -> Parser {
     // params
-    let mut subparams: [u8; 32] = kani::any();
+    let mut subparams: [u8; 32] = any32_u8();
     let mut cnt = [1u8; 33];
     let mut i = m.n;
     while i > 0 {
@@ -343,14 +368,12 @@ pub fn concretize(m: &Vt<OSCN>, extra_osc: usize) -> Parser {
         raw[raw_len + 1] = kani::any();
         raw_len += extra_osc;
     }
-    let mut osc_params: [(usize, usize); 16] = kani::any();
+    let mut osc_params: [(usize, usize); 16] = any16_pairs();
     let mut prev = 0usize;
     let mut i = 0;
-    while i < 16 {
-        if i < m.n_cuts {
-            osc_params[i] = (prev, m.cuts[i]);
-            prev = m.cuts[i];
-        }
+    while i < m.n_cuts {
+        osc_params[i] = (prev, m.cuts[i]);
+        prev = m.cuts[i];
         i += 1;
     }
     Parser::verif_from_parts(anstyle_parse::VerifParts {
@@ -382,8 +405,7 @@ pub fn abstracts_to(p: &Parser, m: &Vt<OSCN>) -> bool {
     // group structure: walk the real list group by group
     let mut next_start = 0usize;
     let mut last_start = 0usize;
-    let mut i = 0;
-    while i < 32 {
+    crate::blocks!(32, i, {
         if i < len {
             ok &= values[i] == m.vals[i];
             let is_start = i == next_start;
@@ -394,8 +416,7 @@ pub fn abstracts_to(p: &Parser, m: &Vt<OSCN>) -> bool {
                 next_start = i + if c == 0 { 1 } else { c };
             }
         }
-        i += 1;
-    }
+    });
     if m.cur_sub {
         ok &= current as usize == len - last_start && len > 0;
     } else {
@@ -405,14 +426,12 @@ pub fn abstracts_to(p: &Parser, m: &Vt<OSCN>) -> bool {
     // OSC
     ok &= parts.osc_num_params == m.n_cuts;
     let mut prev = 0usize;
-    let mut i = 0;
-    while i < 16 {
+    crate::blocks!(16, i, {
         if i < m.n_cuts {
             ok &= parts.osc_params[i] == (prev, m.cuts[i]);
             prev = m.cuts[i];
         }
-        i += 1;
-    }
+    });
     if m.n_cuts == 16 {
         ok &= parts.osc_raw.len() >= m.osc_len;
     } else {
@@ -429,7 +448,7 @@ pub fn abstracts_to(p: &Parser, m: &Vt<OSCN>) -> bool {
 }
 
 #[kani::proof]
-#[kani::unwind(34)]
+#[kani::unwind(10)]
 fn step_initial_state() {
     let p = Parser::<anstyle_parse::DefaultCharAccumulator>::new();
     let m: Vt<OSCN> = Vt::new();
@@ -438,9 +457,9 @@ fn step_initial_state() {
 }
 
 macro_rules! step_case {
-    ($name:ident, $st:expr, $n:expr, $cuts:expr, $extra:expr) => {
+    ($name:ident, $st:expr, $n:expr, $cuts:expr, $extra:expr, $u:literal) => {
         #[kani::proof]
-        #[kani::unwind(34)]
+        #[kani::unwind($u)]
         fn $name() {
             let mut m = any_model($st, $n, $cuts);
             let mut p = concretize(&m, $extra);
@@ -459,36 +478,36 @@ macro_rules! step_case {
 }
 
 // every parser state with few parameters (symbolic values / structure)
-step_case!(step_ground, St::Ground, 1, 1, 0);
-step_case!(step_escape, St::Escape, 0, 0, 0);
-step_case!(step_escape_intermediate, St::EscapeIntermediate, 0, 0, 0);
-step_case!(step_csi_entry, St::CsiEntry, 0, 0, 0);
-step_case!(step_csi_param_0, St::CsiParam, 0, 0, 0);
-step_case!(step_csi_param_2, St::CsiParam, 2, 0, 0);
-step_case!(step_csi_intermediate, St::CsiIntermediate, 2, 0, 0);
-step_case!(step_csi_ignore, St::CsiIgnore, 1, 0, 0);
-step_case!(step_dcs_entry, St::DcsEntry, 0, 0, 0);
-step_case!(step_dcs_param, St::DcsParam, 2, 0, 0);
-step_case!(step_dcs_intermediate, St::DcsIntermediate, 1, 0, 0);
-step_case!(step_dcs_passthrough, St::DcsPassthrough, 1, 0, 0);
-step_case!(step_dcs_ignore, St::DcsIgnore, 1, 0, 0);
-step_case!(step_osc_0, St::OscString, 0, 0, 0);
-step_case!(step_osc_2, St::OscString, 0, 2, 0);
-step_case!(step_sos, St::SosPmApcString, 0, 0, 0);
+step_case!(step_ground, St::Ground, 1, 1, 0, 10);
+step_case!(step_escape, St::Escape, 0, 0, 0, 10);
+step_case!(step_escape_intermediate, St::EscapeIntermediate, 0, 0, 0, 10);
+step_case!(step_csi_entry, St::CsiEntry, 0, 0, 0, 10);
+step_case!(step_csi_param_0, St::CsiParam, 0, 0, 0, 10);
+step_case!(step_csi_param_2, St::CsiParam, 2, 0, 0, 10);
+step_case!(step_csi_intermediate, St::CsiIntermediate, 2, 0, 0, 10);
+step_case!(step_csi_ignore, St::CsiIgnore, 1, 0, 0, 10);
+step_case!(step_dcs_entry, St::DcsEntry, 0, 0, 0, 10);
+step_case!(step_dcs_param, St::DcsParam, 2, 0, 0, 10);
+step_case!(step_dcs_intermediate, St::DcsIntermediate, 1, 0, 0, 10);
+step_case!(step_dcs_passthrough, St::DcsPassthrough, 1, 0, 0, 10);
+step_case!(step_dcs_ignore, St::DcsIgnore, 1, 0, 0, 10);
+step_case!(step_osc_0, St::OscString, 0, 0, 0, 10);
+step_case!(step_osc_2, St::OscString, 0, 2, 0, 10);
+step_case!(step_sos, St::SosPmApcString, 0, 0, 0, 10);
 // the documented limits: 31 / 32 parameter values, 15 / 16 OSC fields
-step_case!(step_csi_param_31, St::CsiParam, 31, 0, 0);
-step_case!(step_csi_param_32, St::CsiParam, 32, 0, 0);
-step_case!(step_csi_intermediate_32, St::CsiIntermediate, 32, 0, 0);
-step_case!(step_dcs_param_31, St::DcsParam, 31, 0, 0);
-step_case!(step_dcs_param_32, St::DcsParam, 32, 0, 0);
-step_case!(step_osc_15, St::OscString, 0, 15, 0);
-step_case!(step_osc_16, St::OscString, 0, 16, 0);
-step_case!(step_osc_16_extra, St::OscString, 0, 16, 2);
+step_case!(step_csi_param_31, St::CsiParam, 31, 0, 0, 34);
+step_case!(step_csi_param_32, St::CsiParam, 32, 0, 0, 35);
+step_case!(step_csi_intermediate_32, St::CsiIntermediate, 32, 0, 0, 35);
+step_case!(step_dcs_param_31, St::DcsParam, 31, 0, 0, 34);
+step_case!(step_dcs_param_32, St::DcsParam, 32, 0, 0, 35);
+step_case!(step_osc_15, St::OscString, 0, 15, 0, 18);
+step_case!(step_osc_16, St::OscString, 0, 16, 0, 19);
+step_case!(step_osc_16_extra, St::OscString, 0, 16, 2, 19);
 
 /// UTF-8 state: a lead byte plus up to two further bytes from Ground, then one more
 /// arbitrary byte -- all bytes symbolic, escape processing must stay suspended.
 #[kani::proof]
-#[kani::unwind(34)]
+#[kani::unwind(10)]
 fn step_utf8() {
     let mut m = any_model(St::Ground, 1, 1);
     let mut p = concretize(&m, 0);
